@@ -470,6 +470,15 @@ pub fn main(args: &Args) -> ! {
     }
     rep.part("F_hard_socket_errors", json!(part_f));
 
+    // ---- G. datagrams that arrived before the peer's close are read after it -----------------------
+    {
+        let spec = Spec::new(Scen::S10);
+        let (_, o1) = cx.exec(&spec);
+        let t = explore_schedule(&cx, &spec, o1.points * 2, 0, k_base, dl);
+        capped_any |= t.capped;
+        rep.part("G_datagrams_read_after_close", json!({"scenario": "S10", "choice_points_baseline": o1.points, "k": k_base, "executions": t.executions, "capped": t.capped}));
+    }
+
     // ---- fold --------------------------------------------------------------------------------
     for (sc, hs) in &all_hashes {
         for h in hs {
